@@ -35,7 +35,8 @@ ASSUMPTIONS = [
     "a packet is 'requested' in a cycle in which no packet is in flight and the stream shows valid & (first | last); "
     "the PID must be offered from the next cycle on (the latency the repo's own test pins)",
 ]
-BOUNDS = "BMC from reset, all inputs free per cycle. Framing assertions: K=16 quick / K=22 thorough (+K=34 with " \
+BOUNDS = "BMC from reset, all inputs free per cycle; quick = device-wiring configuration only, thorough = both. " \
+         "Framing assertions: K=14 quick / K=22 thorough (+K=34 with " \
          "tx.ready=1). CRC assertions: K=7 quick / K=9 thorough (payloads up to 3/5 bytes; K=10 free and K=13 with tx.ready=1 best effort)"
 OUTSIDE = "payloads longer than the depth allows; producers that drop valid inside a packet; the multiplexer between " \
           "this generator and the handshake generator (C20)"
@@ -205,18 +206,24 @@ FRAMING_ASSERTS = ["pid", "payload", "valid_continuous", "idle_quiet", "exactly_
 
 
 def queries(tier):
+    """quick: the device-wiring configuration only -- framing family K=14, CRC family K=7, cover twins, short cosim
+    (4 processes).  thorough: both configurations, deeper, plus the restricted tx.ready=1 layers."""
     thorough = tier != "quick"
     qs = []
-    for tag, sa in (("device_wiring", False), ("standalone", True)):
+    cfgs = (("device_wiring", False), ("standalone", True)) if thorough else (("device_wiring", False),)
+    for tag, sa in cfgs:
         f = (lambda sa=sa: TxHarness(standalone=sa))
-        K = 22 if thorough else 16
-        qs.append(Query(f"bmc_{tag}", f, K, asserts=FRAMING_ASSERTS, timeout=900, split=False,
+        K = 22 if thorough else 14
+        qs.append(Query(f"bmc_{tag}", f, K, asserts=FRAMING_ASSERTS, covers=[], timeout=900, split=False,
                         desc=f"{tag}: PID / payload order / continuity / exactly-once; producer choices, payload, last, "
                              "data_pid and tx.ready free every cycle"))
+        qs.append(Query(f"cover_{tag}", f, 14, asserts=[], timeout=900,
+                        desc=f"{tag}: reachability twins (stalled 3-byte packet, ZLP, 1-byte packet, early next packet, "
+                             "second packet, stalled CRC, all four PIDs)"))
         # the two CRC assertions compare two independently gated CRC accumulations; cost grows steeply with depth
-        # (K=9 35-56 s, K=12 > 100 s on a loaded machine), so they get their own shallower free layer
+        # (K=7 2-13 s, K=9 35-150 s, K=12 > 100 s on a loaded machine), so they get their own shallower free layer
         Kc = 9 if thorough else 7
-        qs.append(Query(f"bmc_crc_{tag}", f, Kc, asserts=CRC_ASSERTS, covers=[], timeout=900,
+        qs.append(Query(f"bmc_crc_{tag}", f, Kc, asserts=CRC_ASSERTS, covers=[], timeout=900, split=thorough,
                         desc=f"{tag}: CRC16 low/high byte of the accepted payload; everything free every cycle "
                              f"(packets of up to {Kc - 4} bytes, or fewer with stalls)"))
         if thorough:
@@ -228,5 +235,5 @@ def queries(tier):
             qs.append(Query(f"bmc_ready1_{tag}", f, 34, asserts=FRAMING_ASSERTS, covers=[], layer={"tx_ready": 1},
                             timeout=900, split=False,
                             desc=f"{tag}: restricted layer tx.ready = 1, longer payloads / more packets (framing assertions)"))
-        qs.append(Query(f"cosim_{tag}", f, 0, kind="cosim", cosim_cycles=300 if not thorough else 2000))
+        qs.append(Query(f"cosim_{tag}", f, 0, kind="cosim", cosim_cycles=150 if not thorough else 2000))
     return qs
